@@ -86,10 +86,7 @@ theorem decode_encode (t : RawTriangle) (h : WF t) : decode (encode t) = .ok t :
 /-- a sufficient condition for `WF` that mentions no sorting: all cells fine and at most 16383
 key occurrences -/
 theorem wf_of_cells (t : RawTriangle) (hc : t.all cellOk = true) (hk : 2 * (allKeys t).length < 32768) :
-    WF t := by
-  have := poolOf_length_le t
-  simp only [WF, wf, Bool.and_eq_true, decide_eq_true_eq]
-  exact ⟨hc, by omega⟩
+    WF t := wf_of_cells_keys t hc hk
 
 /-- the empty triangle: header and an empty pool -/
 theorem decode_encode_empty : decode (encode []) = .ok [] :=
@@ -132,25 +129,6 @@ theorem inferCompress_spec :
 /-! ### 5. non-vacuity: a 2-slice incremental triangle with all eight value kinds, a non-ASCII
 string, a `None` string, a 2-d array and a limit -/
 
-def exMeta1 : RawMetadata :=
-  { riskBasis := some [65], country := some [195, 156, 98], currency := none, reinsuranceBasis := some [],
-    lossDefinition := none, limit := some [0, 0, 0, 0, 0, 0, 240, 63],
-    details := [([107], .str [195, 159]), ([100], .date ⟨2020, 2, 29⟩), ([98], .bool true)],
-    lossDetails := [([110], .none), ([120], .int (-5)), ([102], .flt [0, 0, 0, 0, 0, 0, 4, 64])] }
-
-def exMeta2 : RawMetadata := { exMeta1 with limit := none, details := [] }
-
-def exTriangle : RawTriangle :=
-  [ { kind := .incremental, ps := ⟨2020, 1, 1⟩, pe := ⟨2020, 12, 31⟩, ev := ⟨2020, 12, 31⟩,
-      prev := some ⟨2020, 11, 30⟩, md := exMeta1,
-      values := [([112], .int 9223372036854775807),
-                 ([113], .intArr [2, 1] [1, 0, 0, 0, 0, 0, 0, 0, 2, 0, 0, 0, 0, 0, 0, 0]),
-                 ([114], .fltArr [] [0, 0, 0, 0, 0, 0, 248, 127])] },
-    { kind := .incremental, ps := ⟨2021, 1, 1⟩, pe := ⟨2021, 12, 31⟩, ev := ⟨2021, 12, 31⟩,
-      prev := some ⟨2021, 11, 30⟩, md := exMeta2, values := [([112], .none)] } ]
-
-theorem exTriangle_wf : WF exTriangle := wf_of_cells exTriangle (by decide) (by decide)
-
-example : decode (encode exTriangle) = .ok exTriangle := decode_encode _ exTriangle_wf
+example : decode (encode exTriangle) = .ok exTriangle := decode_encode _ Codec.exTriangle_wf
 
 end Bermuda.Properties.C05
